@@ -13,7 +13,7 @@ import prepare_scratch  # noqa: E402
 import verus_engine  # noqa: E402
 
 REPO = prepare_scratch.REPO
-NCPU = int(os.environ.get("VERIF_JOBS", str(os.cpu_count() or 8)))
+NCPU = int(os.environ.get("VERIF_JOBS", str(min(10, os.cpu_count() or 8))))
 TAG_RE = re.compile(r"\[(C\d{2}|NEG)\]")
 
 
